@@ -61,7 +61,7 @@ CHECKS = {
             "Exhaustive up to the stated bound, sampled (length <=50) beyond.", "DESIGN.md section 5 C17"),
     "C18": ("exploration", "Hypothesis-generated flat declarations x target trees biased to regex metacharacters x fixed/Any subsets x corpora; differential: filter with vs without the regexp pre-filter, plus direct match of the target",
             "For every generated pattern packet (fields fixed to the target's values or left as Any / Any(startswith|contains|endswith)) the corpus (target encoding, re-drawn trees keeping the fixed fields, single fixed field changed, truncations, random and metacharacter strings) is filtered with and without the regexp: the results must be identical in order and value; building the expression must not raise; the regexp must match the target's encoding.",
-            "The plain filter is the reference. One open known finding (F12, left-context assertions in regex delimiters) is matched by its root-cause signature only.", "DESIGN.md section 5 C18"),
+            "The plain filter is the reference. No open known finding (F12/F15 were recorded as open first and repaired later).", "DESIGN.md section 5 C18"),
     "C13": ("exploration", "Hypothesis-generated operation histories over several live packets with per-packet expected trees, identity-disjointness and pack-purity invariants after every step; deterministic line-granular thread scheduler (sys.settrace) with generated schedules + pre-emptive stress",
             "Generated related classes (shared sub-packets, list/prototype/optional defaults, selector refs, regex delimiters kept and not kept) and histories of construct/unpack/assign/append/pack/drop; after each step every live packet must read as its own harness tree, its pack() must equal what was recorded after the last operation addressed to it, and no list/nested packet may be shared by identity. Thread part: 2-3 operations on distinct packets interleaved by a generated schedule at line granularity must give the solo results.",
             "Line-granular schedules only inside bisturi/generated modules; sub-line races only through the probabilistic stress variant.", "DESIGN.md section 5 C13"),
